@@ -56,18 +56,8 @@ func setPropsFromMapRecursive(val reflect.Value, updates map[string]any) (staged
 
 			found = true
 			if fieldVal.Kind() == reflect.Struct {
-				// If the value is a map, it's a nested update
-				if nestedUpdates, ok := value.(map[string]any); ok {
-					nestedStaged, err := setPropsFromMapRecursive(fieldVal.Addr(), nestedUpdates)
-					// Also on error: the caller has to discard what was staged so far
-					stagedProps = append(stagedProps, nestedStaged...)
-					if err != nil {
-						return stagedProps, err
-					}
-					break
-				}
-
-				// Check if it's a ConfigProp
+				// Check if it's a ConfigProp. This comes first: a property is a struct too,
+				// and an (ill-typed) object given as its value is not a nested update.
 				if fieldVal.CanAddr() {
 					fieldAddr := fieldVal.Addr()
 					if prop, ok := fieldAddr.Interface().(StagedConfigProp); ok {
@@ -83,6 +73,17 @@ func setPropsFromMapRecursive(val reflect.Value, updates map[string]any) (staged
 						stagedProps = append(stagedProps, prop)
 						break
 					}
+				}
+
+				// If the value is a map, it's a nested update
+				if nestedUpdates, ok := value.(map[string]any); ok {
+					nestedStaged, err := setPropsFromMapRecursive(fieldVal.Addr(), nestedUpdates)
+					// Also on error: the caller has to discard what was staged so far
+					stagedProps = append(stagedProps, nestedStaged...)
+					if err != nil {
+						return stagedProps, err
+					}
+					break
 				}
 			}
 			break
